@@ -147,3 +147,32 @@ def listener_ids_unique(ctx, rule):
     uses_max = any(c and (c.endswith('Iterator::max') or c.endswith('::max')) for p in prog.with_closures(rl.path) for bi, t, c in prog.bodies[p].calls())
     ctx.ob(rule, 'register_listener|fresh id', uses_max and not uses_len,
            'listener ids are max(existing)+1; a length-based id collides with a live listener after one leaves (the wrong listener is unregistered and a later unregister unwraps None)', rl.loc())
+
+
+def retracting_scan_whole_map(ctx, rule):
+    """on_remove_worker: tasks in Retracting{lost worker} are in no per-worker index (retract_tasks removed them from the
+    worker's backlog set), so the loop that re-homes them has to range over the whole task map."""
+    from hqrules.templates import state_writes, variants_at, loop_headers_containing
+    from hqrules.core import callee_decl, callee_of, op_local
+    prog = ctx.prog
+    orw = prog.body(REACTOR + 'on_remove_worker')
+    TM = T + 'server::taskmap::TaskMap::'
+    whole = [bi for bi in orw.call_blocks({TM + 'tasks_mut', TM + 'tasks', TM + 'task_ids'})]
+    wd = {orw.term[bi]['d'][0] for bi in whole}
+    n = 0
+    for bi, s_, v, pl in state_writes(orw, TRS):
+        old = variants_at(orw, TRS, bi)
+        if not old or set(old) != {'Retracting'}:
+            continue
+        n += 1
+        hs = loop_headers_containing(orw, bi)
+        ok = False
+        if hs:
+            for nb, t, c in orw.calls():
+                if nb in orw.reachable() and (callee_decl(t) or c or '').endswith('Iterator::next') and hs[0] in loop_headers_containing(orw, nb) and orw.dominates(nb, bi):
+                    l = op_local(t['args'][0])
+                    if l is not None and wd & orw.derived_from(l):
+                        ok = True
+        ctx.ob(rule, f'on_remove_worker|Retracting->{v}|found by a whole-map scan', ok,
+               'the loop that re-homes tasks being retracted from the lost worker iterates over the whole TaskMap (tasks_mut / tasks / task_ids): a Retracting task without a redirect entry is reachable through no other index, and left behind it names a dead worker in every later message', orw.loc(bi, s_))
+    ctx.floor(rule, n, 1, 'state writes from Retracting in on_remove_worker')
